@@ -135,6 +135,8 @@ def run(chk, prog):
     # by the bunch's own charge (formulas decided under C09 R2; re-evaluated here)
     from .common import reeval
     reeval(chk, prog, "C09", lambda i: i["rule"] == "R2", "R6", "R6-moment-formulas", 8)
+    # ---- R7: every bunch of a train relaxes: the maps of the chain act on every bunch (rows per class, reader/writer agreement: C08 R1, R2)
+    reeval(chk, prog, "C08", lambda i: i["rule"] in ("R1", "R2") and "Wake" not in i["what"] and "wake" not in i["what"], "R7", "R7-per-bunch-rows", 6)
     # ---- RD: dimensional consistency of the quantities this property depends on (sa/dims.py) ----------------------------------------
     from . import dimrules
     nrd = dimrules.run(chk, prog, "RD")
